@@ -135,8 +135,14 @@ func init() {
 					o.fail("document-count", "formatting changes the number of documents", cs, in, len(dout), len(din))
 				} else {
 					for i := range din {
-						a := normaliseWL(map[string]interface{}(din[i]), "")
-						b := normaliseWL(map[string]interface{}(dout[i]), "")
+						// the order of the whitelisted lists is free ONLY in documents of a whitelisted kind and apiVersion
+						// (the tables are pinned by T-gen `whitelist_expected`); every other document keeps every list as it is
+						kd, _ := din[i]["kind"].(string)
+						av, _ := din[i]["apiVersion"].(string)
+						var a, b interface{} = map[string]interface{}(din[i]), map[string]interface{}(dout[i])
+						if yaml.WhitelistedListSortKinds.Has(kd) && yaml.WhitelistedListSortApis.Has(av) {
+							a, b = normaliseWL(a, ""), normaliseWL(b, "")
+						}
 						if !reflect.DeepEqual(a, b) && !hasDupKeys(in) {
 							o.fail("value-changed", "formatting changes a document's data or scalar types", cs, in, jstr(b), jstr(a))
 						}
